@@ -8,6 +8,7 @@ package csr
 //vsym:pkg github.com/theparanoids/ysshra/csr
 //vsym:entry S_concrete
 //vsym:entry S_symbolic
+//vsym:entry S_summaries
 //vsym:replay same-harness
 
 import (
@@ -143,5 +144,82 @@ func S_symbolic() {
 		ok = vAnd(ok, vAnd(uint8(x)+uint8(y) == uint8(a)+uint8(b), vAnd(uint8(x)<<(y%10) == uint8(a)<<(b%10), int8(x)>>(y%10) == int8(a)>>(b%10))))
 		ok = vAnd(ok, vAnd(^x == ^a, -sx == -sa))
 		vAssert(ok, "selftest.smt-encoding-agrees-with-the-folder")
+	}
+}
+
+// reference implementations (plain loops) for the string summaries
+func refIndex(s, sep string) int {
+	for i := 0; i+len(sep) <= len(s); i++ {
+		if s[i:i+len(sep)] == sep {
+			return i
+		}
+	}
+	return -1
+}
+
+func refCount(s, sep string) int {
+	n := 0
+	for i := 0; i+len(sep) <= len(s); {
+		if s[i:i+len(sep)] == sep {
+			n++
+			i += len(sep)
+		} else {
+			i++
+		}
+	}
+	return n
+}
+
+func refIsSpace(c byte) bool { return c == ' ' || (c >= 9 && c <= 13) }
+
+func refTrim(s string) string {
+	lo, hi := 0, len(s)
+	for lo < hi && refIsSpace(s[lo]) {
+		lo++
+	}
+	for hi > lo && refIsSpace(s[hi-1]) {
+		hi--
+	}
+	return s[lo:hi]
+}
+
+func refLower(s string) string {
+	b := []byte(s)
+	for i := range b {
+		if b[i] >= 'A' && b[i] <= 'Z' {
+			b[i] += 32
+		}
+	}
+	return string(b)
+}
+
+// S_summaries: the engine's summaries of strings.* over symbolic bytes agree
+// with plain-loop reference implementations for every byte value (ASCII bound).
+func S_summaries() {
+	n := vChoose(4, "len")
+	s := vNondetString("s", n)
+	for i := 0; i < n; i++ {
+		vAssume(s[i] < 0x80)
+	}
+	for _, sep := range []string{" ", "=", "ab", "@"} {
+		vAssert(strings.Index(s, sep) == refIndex(s, sep), "selftest.strings.Index")
+		vAssert(strings.Count(s, sep) == refCount(s, sep), "selftest.strings.Count")
+		vAssert(strings.Contains(s, sep) == (refIndex(s, sep) >= 0), "selftest.strings.Contains")
+		parts := strings.Split(s, sep)
+		vAssert(len(parts) == refCount(s, sep)+1, "selftest.strings.Split-count")
+		vAssert(vEqString(strings.Join(parts, sep), s), "selftest.strings.Split-Join-inverse")
+	}
+	vAssert(vEqString(strings.TrimSpace(s), refTrim(s)), "selftest.strings.TrimSpace")
+	vAssert(vEqString(strings.ToLower(s), refLower(s)), "selftest.strings.ToLower")
+	vAssert(strings.EqualFold(s, refLower(s)), "selftest.strings.EqualFold")
+	if n > 0 {
+		vAssert(strings.IndexByte(s, s[0]) == 0, "selftest.strings.IndexByte")
+	}
+	vAssert(vEqString(fmt.Sprintf("%s=%s", s, s), s+"="+s), "selftest.fmt.Sprintf-%s")
+	h := fmt.Sprintf("%x", s)
+	vAssert(len(h) == 2*n, "selftest.fmt.Sprintf-%x-length")
+	for i := 0; i < n; i++ {
+		hi, lo := s[i]>>4, s[i]&15
+		vAssert(vAnd(h[2*i] == "0123456789abcdef"[hi], h[2*i+1] == "0123456789abcdef"[lo]), "selftest.fmt.Sprintf-%x-digits")
 	}
 }
